@@ -46,7 +46,7 @@ pub const F_SHAPES: [(&str, usize); 11] = [
 ];
 const F_TYPES: &str = "struct FOutMixed { @location(0) a: vec4<f32>, @builtin(frag_depth) d: f32, @location(1) b: vec4<f32> };\nstruct FOutSparse { @location(1) a: vec4<f32>, @location(3) b: vec4<f32> };\nstruct FOutBuiltins { @builtin(frag_depth) d: f32, @builtin(sample_mask) m: u32 };\nstruct FOutDescending { @location(2) bright: vec4<f32>, @builtin(frag_depth) d: f32, @location(0) colour: vec4<f32> };\nstruct FOutSwapped { @location(1) a: vec4<f32>, @location(0) b: vec4<f32> };\nstruct FOutSingleHigh { @builtin(sample_mask) m: u32, @location(5) only: vec4<f32> };\n";
 const V_TYPES: &str = "struct VInA { @location(0) a: vec4<f32>, @builtin(vertex_index) vi: u32 };\nstruct VInB { @location(1) b: vec2<f32> };\nstruct VInBuiltins { @builtin(instance_index) i: u32 };\n";
-pub const C_SIZES: [(&str, [u32; 3]); 5] = [("1", [1, 1, 1]), ("2, 3", [2, 3, 1]), ("4, 5, 6", [4, 5, 6]), ("WG_N", [7, 1, 1]), ("WG_N, 2", [7, 2, 1])];
+pub const C_SIZES: [(&str, [u32; 3]); 8] = [("1", [1, 1, 1]), ("2, 3", [2, 3, 1]), ("4, 5, 6", [4, 5, 6]), ("WG_N", [7, 1, 1]), ("WG_N, 2", [7, 2, 1]), ("256", [256, 1, 1]), ("1, 1, 64", [1, 1, 64]), ("WG_N * 2u, 16, 2", [14, 16, 2])];
 pub const V_PARAMS: [&[Option<&str>]; 7] = [&[], &[Some("VInA")], &[Some("VInA"), Some("VInB")], &[Some("VInB"), None], &[None, Some("VInB"), Some("VInA")], &[Some("VInBuiltins")], &[Some("VInA"), Some("VInBuiltins")]];
 
 fn f_body(shape: usize) -> String {
@@ -500,6 +500,9 @@ pub fn run(tier: &str) -> i32 {
             continue;
         }
         rep.nontrivial.insert(hash64(&p.src));
+        if thorough || hash64(&p.key) % 3 == 0 {
+            option_leg(&mut rep, &p.key, &p.src, &cfg, t.as_ref().unwrap(), "entry constants / helpers / pipeline constructors", &|kind, name| (kind == "const" && (name.starts_with("ENTRY_") || name.ends_with("_WORKGROUP_SIZE"))) || (kind == "fn" && (name.ends_with("_entry") || name == "vertex_state" || name == "fragment_state")) || (kind == "mod" && name == "compute") || ((kind == "struct" || kind == "impl") && (name.starts_with("VertexEntry") || name.starts_with("FragmentEntry"))));
+        }
         for x in v {
             rep.violation(p.key.clone(), format!("model: {x}"), json!({"wgsl": p.src, "config": cfg.key(), "observed": x}));
         }
